@@ -54,9 +54,8 @@ def _tlc_jobs(ctx):
         with open(cfg, "w") as fh:
             fh.write(f"CONSTANTS\nCmds = {_set(grp)}\nOpts = {OPTS_TLA}\nTomlModes = {{TRUE, FALSE}}\n")
         jobs[f"gen{i}"] = (lambda cfg=cfg, out=out: (vlib.tlc("Gen_Cli", cfg, env={"OUT_FILE": out}, timeout=1500), out))
-    with ThreadPoolExecutor(max_workers=len(jobs)) as ex:
-        futs = {k: ex.submit(f) for k, f in jobs.items()}
-        return {k: f.result() for k, f in futs.items()}, conv_cfg
+    ex = ThreadPoolExecutor(max_workers=len(jobs))
+    return ex, {k: ex.submit(f) for k, f in jobs.items()}, conv_cfg
 
 
 def _stage_a(ctx, res, conv_cfg):
@@ -147,9 +146,7 @@ def _report_prec(ctx, failing, stage, twin_ok):
 
 
 # ----------------------------------------------------------------------------- stage B
-def _stage_b(ctx, pool, rows, n_init):
-    if len(rows) != n_init:
-        raise vlib.MachineryFailure(f"Gen_Cli wrote {len(rows)} configurations but MC_Cli has {n_init} initial states")
+def _stage_b(ctx, pool, rows):
     quick = ctx.tier == "quick"
     spellings = ["short"] if quick else ["short", "long"]
     cache = quick
@@ -397,13 +394,21 @@ def run(ctx):
                 "configuration); stage C: byte strings of length 0..64 x 9 format pairs and text inputs (non-trivial = empty, "
                 "leading zeros, 0xff.., newline bytes, odd nibble / partial byte, wrapped in newlines)")
     _common(ctx)
-    res, conv_cfg = _tlc_jobs(ctx)
-    n_init = _stage_a(ctx, res, conv_cfg)
-    rows = _rows(res)
-    _spec_selftest(ctx)
+    # the runner pool is forked first (no threads yet); then all TLC jobs start; the replay of the generated
+    # configurations overlaps with the stage-A model checking, whose verdict is collected afterwards
     with clirig.Pool(16) as pool:
-        passing = _stage_b(ctx, pool, rows, n_init)
-        done = _stage_c(ctx, pool, _gen_c(ctx))
+        ex, futs, conv_cfg = _tlc_jobs(ctx)
+        try:
+            rows = _rows({k: f.result() for k, f in futs.items() if k.startswith("gen")})
+            _spec_selftest(ctx)
+            passing = _stage_b(ctx, pool, rows)
+            done = _stage_c(ctx, pool, _gen_c(ctx))
+            res = {k: f.result() for k, f in futs.items()}
+        finally:
+            ex.shutdown(wait=True)
+    n_init = _stage_a(ctx, res, conv_cfg)
+    if len(rows) != n_init:
+        raise vlib.MachineryFailure(f"Gen_Cli wrote {len(rows)} configurations but MC_Cli has {n_init} initial states")
     _binding_selftest_b(ctx, passing)
     _binding_selftest_c(ctx, done)
     ev = next(e for e in done if e["op"] == "rt" and e["f"] == "hex" and e["g"] == "bin" and len(e["b"]) == 3)
